@@ -376,6 +376,7 @@ func TestC18(t *testing.T) {
 	if !run.Replaying() {
 		run.Require()
 	}
+	run.Complete()
 	if run.Violations() > 0 {
 		t.Errorf("%d violation(s)", run.Violations())
 	}
